@@ -17,5 +17,28 @@ SPEC = {
         {'pkg': 'execute', 'src': 'harness/execute/c15_test.go', 'test': 'TestVerif_C15_accept_exec', 'fakes': True,
          'sinks': {'C15_acc_exec': 'acc_judge'}, 'n': {'quick': 400, 'thorough': 20000}},
     ],
-    'known': {'1': 'F27'},
+    'known': {'1': 'F30'},
+    'rule': 'subj: real getCurseInfoFromCursedSubjects + CurseInfo.NonCursedSourceChains on subject sets of classes none/global/dest/sources/all sources/'
+            'near-miss (one bit off the global, destination or a source subject)/high half non-zero and swapped halves/mixed/duplicate request, selectors '
+            '0, 2^56, 2^64-1 and the two numbers that make up the global subject; obs_commit: observerImpl.ObserveOffRampNextSeqNums with a scripted '
+            'ChainSupport (dest support yes/no/error, known sources 0..5 or error), scripted remote (clean/global/dest/read failure/one/some/all sources/'
+            'unrelated chains) and NextSeqNum reader (ok/error/one answer short); obs_exec: Plugin.getCommitReportsObservation with the same scripts plus commit '
+            'reports on the destination for known sources and for a chain outside the known list, reader failure; acc_*: ShouldAcceptAttestedReport of both '
+            'plugins on reports naming 0..3 source chains (also the same chain twice), price-only reports, RMN on/off, bad report info. In the three plugin-level '
+            'parts one plugin instance receives 1..4 calls while the remote changes between them (history/* classes). non-trivial = subjects and sources non-empty '
+            '(subj), >= 2 known sources / pending chains and destination supported (obs), report names >= 1 source (acc); distinct by full input',
+    'trusted': ['the contract reader returning the cursed subjects of the destination RMN remote (GetRmnCurseInfo wrapper around getCurseInfoFromCursedSubjects is '
+                'not exercised; the plugin-level fake answers like it: only for the chains asked about)',
+                'ChainSupport / home chain answers, NextSeqNum and CommitReportsGTETimestamp are oracles (scripted fakes)',
+                'report codec decode results (JSON mock codec of the repository)'],
+    'assumptions': ['libocr calls the callbacks one at a time per instance; curse state is whatever the reader returns at each call'],
+    'level_text': 'Proof: 18 Coq theorems — subject encoding injective and never the global subject, a source is cursed iff asked about and its own subject is set, '
+                  'unrelated subjects change nothing; no off-ramp numbers / commit reports observed under global or destination curse or reader failure; a cursed source is '
+                  'absent from both observations and every other known source stays; a report with roots / chain reports is never accepted under global, destination or '
+                  'any named-source curse or reader failure, and the curse step refuses nothing else; refutation witness for execute sources outside the known list (F30). '
+                  'Correspondence: subject decoding, both observations and both acceptance callbacks run against the model on every run, with curse sets changing between calls',
+    'level_note': 'Trusted: Coq kernel, hand-written model, differential harness, scripted readers. Statements are per call (the model is stateless; the history classes test that the '
+                  'implementation is too). The interval-selection consequence (cursed source absent from outcomes) rests on C02 and is not restated here. No axioms.',
+    'modelled': 'getCurseInfoFromCursedSubjects, NonCursedSourceChains, IsReportCursed, ObserveOffRampNextSeqNums, getCurseInfo + getCommitReportsObservation, curse step of both '
+                'ShouldAcceptAttestedReport (gates from Model/Transmit.v)',
 }
